@@ -20,6 +20,7 @@ from ..model import AnalysisError, Model
 from ..report import Report
 from ..setalg import SetAlg, compare, f_and, f_not, f_or, show_formula, show_row
 from ..symeval import Evaluator
+from ..refcmp import load_reference, run_table
 from ..terms import Term, const, show, subterms, var
 from .common import GRAPH_PRIMS, NXMG, VARIABLE, construct, graph_rewrite, graph_var, loc, return_paths, rewriter, short, typed, kwargs_of
 from .dslcommon import DSL_PRIMS
@@ -33,40 +34,94 @@ def _ev(model, prims=(), pm=()):
     return Evaluator(model, primitives=set(GRAPH_PRIMS) | set(DSL_PRIMS) | set(prims), prim_methods=set(pm) | {"get_base", "intervene", "__matmul__"})
 
 
+W = ("set", ("cls", f"{CG}.World"))
+G = ("cls", NXMG)
+VV = ("cls", VARIABLE)
+REF = "yvref.c18"
+HELPERS = {f"{CG}.{x}" for x in (
+    "extract_interventions", "make_parallel_worlds_graph", "lemma_24_holds", "merge_pw", "is_inconsistent", "update_event", "_both_ways", "_get_directed_edges",
+    "node_not_an_intervention_in_world", "stitch_counterfactual_and_doppleganger_neighbors", "stitch_counterfactual_and_dopplegangers",
+    "stitch_counterfactual_and_neighbors", "stitch_factual_and_doppleganger_neighbors", "stitch_factual_and_dopplegangers", "World")}
+
+TABLE = [
+    ("R18.1", f"{CG}.make_counterfactual_graph", "counterfactual_graph", {"graph": G, "event": EVT}, HELPERS, "make-cg",
+     "private copy of the event; nodes of G in topological order; node vs its copy in every world, then copies of every unordered pair of worlds; each test, merge, "
+     "conflict check and relabelling acts on the CURRENT graph and the CURRENT relabelled event; None right after a conflicting merge; result (H[An(E)], E)"),
+    ("R18.4", f"{CG}.make_parallel_worlds_graph", "parallel_worlds_graph", {"graph": G, "worlds": W}, HELPERS, "parallel-worlds",
+     "G plus one copy per world; directed copies except into intervened nodes; the five stitching families; cross-world families only with ≥2 worlds"),
+    ("R18.4", f"{CG}.extract_interventions", "worlds_of", {"variables": ("iter", VV)}, HELPERS, "worlds", "one world per distinct subscript set of the event"),
+    ("R18.4", f"{CG}._get_directed_edges", "directed_copies", {"graph": G, "worlds": W}, HELPERS, "family:directed-copies", "u_w -> v_w for every edge u -> v unless v is intervened in w"),
+    ("R18.4", f"{CG}.stitch_factual_and_dopplegangers", "factual_and_dopplegangers", {"graph": G, "worlds": W}, HELPERS, "family:factual-doppleganger", "u <-> u_w for every world"),
+    ("R18.4", f"{CG}.stitch_factual_and_doppleganger_neighbors", "factual_and_doppleganger_neighbors", {"graph": G, "worlds": W}, HELPERS,
+     "family:factual-doppleganger-neighbours", "u <-> v_w for every bidirected neighbour v of u, every world"),
+    ("R18.4", f"{CG}.stitch_counterfactual_and_dopplegangers", "counterfactual_and_dopplegangers", {"graph": G, "worlds": W}, HELPERS,
+     "family:counterfactual-doppleganger", "u_w1 <-> u_w2 for EVERY unordered pair of worlds"),
+    ("R18.4", f"{CG}.stitch_counterfactual_and_doppleganger_neighbors", "counterfactual_and_doppleganger_neighbors", {"graph": G, "worlds": W}, HELPERS,
+     "family:counterfactual-doppleganger-neighbours", "u_w1 <-> v_w2 for every bidirected neighbour, EVERY unordered pair of worlds"),
+    ("R18.4", f"{CG}.stitch_counterfactual_and_neighbors", "counterfactual_and_neighbors", {"graph": G, "worlds": W}, HELPERS,
+     "family:counterfactual-neighbours", "u_w <-> v_w inside every world"),
+    ("R18.4", f"{CG}.node_not_an_intervention_in_world", "not_intervened_in", {"world": ("cls", f"{CG}.World"), "node": VV}, (), "not-intervened", "neither +v nor -v is in the world"),
+    ("R18.1", f"{CG}.update_event", "relabel", {"event": EVT, "preferred_node": VV, "eliminated_node": VV}, (), "relabel",
+     "the eliminated node's value moves to the preferred node, only if the eliminated node carries a value (hence idempotent)"),
+    ("R18.5", f"{CG}.merge_pw", "merged", {"graph": G, "node1": VV, "node2": VV}, {"y0.dsl._variable_sort_key", f"{CG}._variable_sort_key"}, "lemma-25",
+     "node2 merged into node1 (factual / lower name kept): node1 keeps its parents and inherits node2's children and bidirected neighbours; node2 and its unshared parents are dropped, every other node stays"),
+]
+
+
+def _mk(model: Model, prims=()):
+    def make():
+        ev = Evaluator(model, primitives=set(GRAPH_PRIMS) | set(DSL_PRIMS) | set(prims), prim_methods={"get_base", "intervene", "__matmul__", "__pos__", "__neg__"})
+        ev.loop_once = True
+        return ev
+    return make
+
+
+def c18_rewrite(t: Term):
+    """Identities used when comparing make-cg with its definition; each has its premise checked by an obligation of this module:
+    (a) from_edges(V(g), Ed(g), Eu(g)) = g (C14);  (b) is_inconsistent is symmetric and merge_pw returns its two nodes (R18.3, R18.5#returns-its-nodes);
+    (c) relabelling twice with the same pair = once (R18.1#relabel)."""
+    h = t[0]
+    if h == "call" and str(t[1]).endswith("from_edges"):
+        kw = dict(t[3])
+        n, d, u = kw.get("nodes"), kw.get("directed"), kw.get("undirected")
+        if n is not None and d is not None and u is not None and n[0] == "V" and d[0] == "Ed" and u[0] == "Eu" and n[1] == d[1] == u[1]:
+            return n[1]
+    if h == "call" and str(t[1]).endswith(".is_inconsistent"):
+        kw = dict(t[3])
+        a, b = kw.get("node"), kw.get("node_at_interventions")
+        if a is not None and b is not None:
+            if a[0] == "index" and b[0] == "index" and a[1] == b[1] and a[1][0] == "call" and str(a[1][1]).endswith(".merge_pw") and {a[2], b[2]} == {("const", 1), ("const", 2)}:
+                mk_ = dict(a[1][3])
+                a, b = mk_.get("node1"), mk_.get("node2")
+            x, y = sorted([a, b], key=repr)
+            return ("call", t[1], t[2], tuple(sorted({**kw, "node": x, "node_at_interventions": y}.items())))
+    if h == "call" and str(t[1]).endswith(".update_event"):
+        kw = dict(t[3])
+        inner = kw.get("event")
+        if inner is not None and inner[0] == "call" and inner[1] == t[1]:
+            k2 = dict(inner[3])
+            if k2.get("preferred_node") == kw.get("preferred_node") and k2.get("eliminated_node") == kw.get("eliminated_node"):
+                return inner
+    return None
+
+
 def run(model: Model, rep: Report, tier: str) -> None:
     rep.level = "other"
     rep.explanation = (
-        "Only structural clauses are decided: (i) def-use discipline of the two loop-carried variables of make_counterfactual_graph (the "
-        "current graph and the current event: initialised as copies, tested / merged / relabelled / returned through the same variable); "
-        "(ii) the predicates of Lemma 24 as boolean formulas compared by satisfiability with the published case table; (iii) the shape of the "
-        "success return; (iv) enumeration families (topological order, all unordered pairs of worlds). That merged nodes are the same random "
-        "variable in every SCM, acyclicity and probability preservation are the core of C18 and are NOT decided by any static argument here."
+        "Only structural clauses are decided. make_counterfactual_graph, the parallel-worlds construction, its edge families, the relabelling and "
+        "Lemma 25's merge are compared with the published construction written as Python (yv/refs/c18_ref.py): both sides are evaluated by the same "
+        "evaluator, loops through the 'state after one generic iteration' abstraction, and outcomes must agree wherever the guards overlap (alpha-"
+        "renaming, set algebra, boolean restructuring, copy-of-graph and order of tests do not matter). The Lemma-24 predicates are boolean formulas "
+        "compared by satisfiability with the published case table. The caller's event is shown untouched by the effects analysis. That merged nodes "
+        "are the same random variable in every SCM, acyclicity and probability preservation are the core of C18 and are NOT decided by any static argument here."
     )
     rep.trusted_base = ["Shpitser & Pearl 2008, Lemmas 24/25", "C14 (subgraph, ancestors_inclusive, from_edges)"]
-    rep.floors = {"R18.1": 3, "R18.2": 1, "R18.3": 2, "R18.4": 6, "R18.5": 1}
-    r18_driver(model, rep)
-    r18_predicates(model, rep)
-    r18_families(model, rep)
-    r18_merge(model, rep)
-
-
-def r18_driver(model: Model, rep: Report) -> None:
+    rep.floors = {"R18.1": 3, "R18.3": 1, "R18.4": 12, "R18.5": 2}
+    load_reference(model, REF, "c18_ref.py")
+    sa = SetAlg(rewriter(graph_rewrite, c18_rewrite))
+    run_table(model, rep, TABLE, REF, _mk, sa, construct=construct, loc=loc)
+    # the caller's event and graph are untouched
     f = model.func(f"{CG}.make_counterfactual_graph")
-    node = f.node
-    params = [a.arg for a in node.args.args]
-    gparam, eparam = params[0], params[1]
-    # variables initialised from the parameters
-    ev_var = None
-    for st in node.body:
-        if isinstance(st, ast.Assign) and isinstance(st.targets[0], ast.Name) and isinstance(st.value, ast.Call):
-            src = ast.unparse(st.value)
-            if src in (f"dict({eparam})", f"{eparam}.copy()", f"copy({eparam})", f"deepcopy({eparam})"):
-                ev_var = st.targets[0].id
-    cons = construct(f, "event-copy")
-    if ev_var is None:
-        rep.refuted("R18.1", cons, "the relabelling does not start from a private copy of the caller's event (update_event mutates its argument)", loc(f))
-        return
-    rep.proven("R18.1", cons, loc=loc(f), sample={"current-event variable": ev_var})
     eff = Effects(model)
     sm = eff.summary(f)
     if sm.mutates:
@@ -74,93 +129,24 @@ def r18_driver(model: Model, rep: Report) -> None:
         rep.refuted("R18.1", construct(f, "pure"), f"may modify the caller's `{p}`: {es[0].how}", loc(f, es[0].line))
     else:
         rep.proven("R18.1", construct(f, "pure"), loc=loc(f))
-    # def-use discipline
+    # premise (b): merge_pw returns (graph, x, y) with {x, y} = {node1, node2}
+    fm = model.func(f"{CG}.merge_pw")
+    ev = _mk(model, {"y0.dsl._variable_sort_key", f"{CG}._variable_sort_key"})()
+    n1, n2 = typed(ev, "node1", VV), typed(ev, "node2", VV)
     problems = []
-    calls = [c for c in ast.walk(node) if isinstance(c, ast.Call) and isinstance(c.func, ast.Name)]
-    gvars = set()
-    for c in calls:
-        nm = c.func.id
-        if nm in ("lemma_24_holds", "is_inconsistent", "update_event"):
-            pos = {"lemma_24_holds": 1, "is_inconsistent": 0, "update_event": 0}[nm]
-            arg = c.args[pos] if len(c.args) > pos else None
-            if not (isinstance(arg, ast.Name) and arg.id == ev_var):
-                problems.append(f"{nm}() at line {c.lineno} is given `{ast.unparse(arg) if arg is not None else '?'}` instead of the current relabelled event `{ev_var}` "
-                                "(a conflict between two already-relabelled copies is missed, or a stale event is relabelled)")
-        if nm in ("lemma_24_holds", "merge_pw"):
-            arg = c.args[0] if c.args else None
-            if isinstance(arg, ast.Name):
-                gvars.add(arg.id)
-    if len(gvars) != 1:
-        problems.append(f"the Lemma-24 test and the merge do not act on one current graph variable: {sorted(gvars)}")
-    # update_event results must flow back into ev_var
-    for st in ast.walk(node):
-        if isinstance(st, ast.Assign) and isinstance(st.value, ast.Call) and getattr(st.value.func, "id", "") == "update_event":
-            if not (isinstance(st.targets[0], ast.Name) and st.targets[0].id == ev_var):
-                problems.append("the relabelled event is stored in another variable")
-    (rep.refuted if problems else rep.proven)("R18.1", construct(f, "current-event-discipline"), "; ".join(sorted(set(problems))), loc(f))
-    # R18.3: every `return (.., None)` sits under is_inconsistent(...) under lemma_24_holds(...) after merge_pw
-    problems = []
-    n_none = 0
-
-    def visit(stmts, ctx):
-        nonlocal n_none
-        merged = False
-        for st in stmts:
-            if isinstance(st, ast.Assign) and isinstance(st.value, ast.Call) and getattr(st.value.func, "id", "") == "merge_pw":
-                merged = True
-            if isinstance(st, ast.Return) and isinstance(st.value, ast.Tuple) and len(st.value.elts) == 2 and isinstance(st.value.elts[1], ast.Constant) and st.value.elts[1].value is None:
-                n_none += 1
-                if not ("inconsistent" in ctx and "lemma24" in ctx and "merged" in ctx):
-                    problems.append(f"'inconsistent' (None) is returned at line {st.lineno} without a preceding merge whose nodes disagree in the event")
-            if isinstance(st, ast.If):
-                t = ast.unparse(st.test)
-                c2 = set(ctx)
-                if t.startswith("lemma_24_holds("):
-                    c2.add("lemma24")
-                if t.startswith("is_inconsistent("):
-                    c2.add("inconsistent")
-                if merged:
-                    c2.add("merged")
-                visit(st.body, c2)
-                visit(st.orelse, set(ctx) | ({"merged"} if merged else set()))
-            elif isinstance(st, (ast.For, ast.While)):
-                visit(st.body, set(ctx))
-    visit(node.body, set())
-    if n_none == 0:
-        problems.append("no inconsistent return found")
-    (rep.refuted if problems else rep.proven)("R18.3", construct(f, "none-only-after-conflicting-merge"), "; ".join(problems), loc(f), sample={"None returns": n_none})
-    # R18.2 success return
-    rets = [st for st in node.body if isinstance(st, ast.Return)]
-    problems = []
-    gvar = next(iter(gvars)) if len(gvars) == 1 else None
-    if len(rets) != 1 or not isinstance(rets[0].value, ast.Tuple):
-        problems.append("no single success return")
-    else:
-        g_e, e_e = rets[0].value.elts
-        if not (isinstance(e_e, ast.Name) and e_e.id == ev_var):
-            problems.append("the returned event is not the relabelled event")
-        # resolve g_e through straight-line assignments
-        defs = {st.targets[0].id: st.value for st in node.body if isinstance(st, ast.Assign) and isinstance(st.targets[0], ast.Name)}
-        ge = ast.unparse(defs.get(g_e.id, g_e)) if isinstance(g_e, ast.Name) else ast.unparse(g_e)
-        anc = [k for k, v in defs.items() if ast.unparse(v) == f"{gvar}.ancestors_inclusive({ev_var})"]
-        ok = any(ge == f"{gvar}.subgraph({a})" for a in anc) or ge == f"{gvar}.subgraph({gvar}.ancestors_inclusive({ev_var}))"
-        if not ok:
-            problems.append(f"the returned graph is `{ge}`, not the merged graph restricted to the ancestors of the relabelled event")
-    (rep.refuted if problems else rep.proven)("R18.2", construct(f, "ancestral-restriction"), "; ".join(problems), loc(f))
-    # topological order of the original graph, all worlds, all unordered pairs of worlds
-    problems = []
-    loops = [st for st in node.body if isinstance(st, ast.For)]
-    if not loops or ast.unparse(loops[0].iter) != f"{gparam}.topological_sort()":
-        problems.append(f"nodes are visited as `{ast.unparse(loops[0].iter) if loops else '?'}`, not in topological order of the original graph "
-                        "(a child visited before its parents is tested before their copies are merged, so its own copies are not merged)")
-    else:
-        inner = [st for st in ast.walk(loops[0]) if isinstance(st, ast.For) and st is not loops[0]]
-        its = [ast.unparse(x.iter) for x in inner]
-        if not any(i == "worlds" for i in its):
-            problems.append("not every world's copy is compared with the factual node")
-        if not any(i.replace("itertools.", "").replace("itt.", "") == "combinations(worlds, 2)" for i in its):
-            problems.append("copies in two different worlds are not compared for every unordered pair of worlds")
-    (rep.refuted if problems else rep.proven)("R18.4", construct(f, "visit-order"), "; ".join(problems), loc(f))
+    for p in return_paths(ev.run(fm, {"graph": graph_var(ev, "graph"), "node1": n1, "node2": n2})):
+        v = p.value
+        if not (v[0] == "tuplelit" and len(v[1]) == 3):
+            problems.append("does not return (graph, kept, dropped)")
+            continue
+        x, y = v[1][1], v[1][2]
+        srt = ("call", "sorted", (("listlit", (n1, n2)),), None)
+        def is_ix(t, i):
+            return t[0] == "index" and t[2] == ("const", i) and t[1][0] == "call" and t[1][1] == "sorted"
+        if not ({x, y} == {n1, n2} or (is_ix(x, 0) and is_ix(y, 1) and x[1] == y[1])):
+            problems.append("the kept / dropped nodes it reports are not the two nodes it was given")
+    (rep.refuted if problems else rep.proven)("R18.5", construct(fm, "returns-its-nodes"), "; ".join(sorted(set(problems))), loc(fm))
+    r18_predicates(model, rep)
 
 
 def r18_predicates(model: Model, rep: Report) -> None:
@@ -234,36 +220,3 @@ def r18_predicates(model: Model, rep: Report) -> None:
     (rep.refuted if problems else rep.proven)("R18.4", construct(f, "all-parent-pairs"), "; ".join(problems), loc(f))
 
 
-def r18_families(model: Model, rep: Report) -> None:
-    for fn, pairwise in (("stitch_counterfactual_and_dopplegangers", True), ("stitch_counterfactual_and_doppleganger_neighbors", True),
-                         ("stitch_counterfactual_and_neighbors", False), ("stitch_factual_and_dopplegangers", False),
-                         ("stitch_factual_and_doppleganger_neighbors", False), ("_get_directed_edges", False)):
-        f = model.func(f"{CG}.{fn}")
-        comps = [n for n in ast.walk(f.node) if isinstance(n, ast.SetComp)]
-        problems = []
-        if not comps:
-            problems.append("no edge comprehension")
-        else:
-            c = comps[0]
-            its = [ast.unparse(g.iter).replace("itertools.", "").replace("itt.", "") for g in c.generators]
-            if pairwise and "combinations(worlds, 2)" not in its:
-                problems.append(f"world pairs are enumerated as `{its[0]}`: with three or more worlds some unordered pairs of worlds get no cross-world bidirected edge")
-            if not pairwise and "worlds" not in its:
-                problems.append("not every world is covered")
-            if not any(i in ("graph.nodes()", "graph.directed.edges()") for i in its):
-                problems.append("not every node/edge of the graph is covered")
-        (rep.refuted if problems else rep.proven)("R18.4", construct(f, "family"), "; ".join(problems), loc(f))
-
-
-def r18_merge(model: Model, rep: Report) -> None:
-    f = model.func(f"{CG}.merge_pw")
-    src = ast.unparse(f.node)
-    nodes_comp = [n for n in ast.walk(f.node) if isinstance(n, ast.keyword) and n.arg == "nodes"]
-    problems = []
-    if not nodes_comp:
-        problems.append("merged graph is not given an explicit node list")
-    else:
-        txt = ast.unparse(nodes_comp[0].value)
-        if "graph.nodes()" not in txt or "node != node2" not in txt:
-            problems.append("the merged graph must keep every node except the eliminated one: " + txt)
-    (rep.refuted if problems else rep.proven)("R18.5", construct(f, "keeps-nodes"), "; ".join(problems), loc(f))
